@@ -178,7 +178,14 @@ CHECKS["C06"] = dict(
     design="5/C06",
 )
 
-NOT_YET = {}
+NOT_YET = {
+    "C18": "not claimed: the technique (generated package trees on disk + {name: id(object)} differential oracle, DESIGN.md section 5/C18) applies, "
+           "but the check was not built in the time available; nothing is asserted about this property (import defects met on the way were found "
+           "through C01/C02/C08 and are listed in DESIGN.md 12.4)",
+    "C19": "not claimed: the technique (adversarial identifier generator + symbol-table / execution oracle, DESIGN.md section 5/C19) applies, but the "
+           "check was not built in the time available; nothing is asserted about this property (renaming defects met on the way were found through "
+           "C01/C02/C07/C08 and are listed in DESIGN.md 12.4)",
+}
 
 
 def main():
